@@ -22,6 +22,7 @@ package xcompactplan
 
 import (
 	"context"
+	"math"
 	"fmt"
 	"path"
 	"sort"
@@ -58,7 +59,10 @@ type c32blk struct {
 	partial bool
 	res     int64
 	dMax    int64 // MaxTime = base - retention(res) + dMax (ms); if retention(res)==0: base - 30d + dMax
-	hasMark bool
+	// farFuture != 0: MaxTime is at the end of the int64 range (a sample with a bogus far-future
+	// timestamp, or an importer using MaxInt64 as an open end): 1 MaxInt64, 2 MaxInt64-1, 3 MaxInt64-retention+1
+	farFuture int
+	hasMark   bool
 	// remarked (complete blocks with a mark only): an earlier mark, older than the delete delay by hours,
 	// was seen by one sync of the same filter object, then withdrawn (tools bucket unmark) and the
 	// current one written
@@ -90,6 +94,9 @@ func (c *c32case) render() string {
 			sb.WriteString("}")
 		} else {
 			fmt.Fprintf(&sb, " B%d{res=%d max%+d", b.n, b.res, b.dMax)
+			if b.farFuture != 0 {
+				fmt.Fprintf(&sb, " farFuture=%d", b.farFuture)
+			}
 			if b.hasMark {
 				fmt.Fprintf(&sb, " mark%+ds", b.dMark)
 				if b.remarked {
@@ -153,6 +160,14 @@ func runC32(c *c32case, tolerateTrunc, toleratePartialMark bool) (string, c32out
 				r = 30 * 24 * time.Hour
 			}
 			maxTime[i] = baseMs - int64(r/time.Millisecond) + b.dMax
+			switch b.farFuture {
+			case 1:
+				maxTime[i] = math.MaxInt64
+			case 2:
+				maxTime[i] = math.MaxInt64 - 1
+			case 3:
+				maxTime[i] = math.MaxInt64 - int64(r/time.Millisecond) + 1
+			}
 			m := &metadata.Meta{}
 			m.Version = metadata.TSDBVersion1
 			m.ULID = id
@@ -469,6 +484,9 @@ func genC32(rt *rapid.T) *c32case {
 			b.dMax = near("max")
 			if rapid.Bool().Draw(rt, "wholeSecond") {
 				b.dMax = b.dMax / 1000 * 1000
+			}
+			if rapid.IntRange(0, 9).Draw(rt, "farFuture") == 0 {
+				b.farFuture = rapid.IntRange(1, 3).Draw(rt, "farFutureKind")
 			}
 		} else {
 			no := rapid.IntRange(1, 3).Draw(rt, "objs")
